@@ -21,13 +21,18 @@ TARGETS = [
     ("trait_notifiers.py", "TraitChangeNotifyWrapper", "_notify_method_listener"),
     ("trait_notifiers.py", "TraitChangeNotifyWrapper", "equals"),
     ("trait_notifiers.py", "TraitChangeNotifyWrapper", "listener_deleted"),
+    ("trait_notifiers.py", "TraitChangeNotifyWrapper", "init"),
+    ("trait_notifiers.py", "ExtendedTraitChangeNotifyWrapper", "_dispatch_change_event"),
+    ("trait_notifiers.py", "ExtendedTraitChangeNotifyWrapper", "_notify_method_listener"),
+    ("trait_notifiers.py", "ExtendedTraitChangeNotifyWrapper", "_notify_function_listener"),
     ("observation/_has_traits_helpers.py", None, "ctrait_prevent_event"),
     ("observation/_trait_event_notifier.py", "TraitEventNotifier", "__call__"),
 ]
 
 ATTRS = {"type": "type", "comparison_mode": "comparison_mode", "old": "old", "new": "new", "object": "object",
          "name": "name", "handler": "handler", "notify_listener": "notify_listener", "__self__": "dunder_self",
-         "__name__": "dunder_name"}
+         "__name__": "dunder_name", "__func__": "dunder_func", "owner": "owner",
+         "argument_transform": "argument_transform", "listener_deleted": "listener_deleted"}
 GLOBS = {"Uninitialized": "Uninitialized", "MethodType": "MethodType", "_pre_change_event_tracer": "pre_tracer",
          "_post_change_event_tracer": "post_tracer"}
 ENUMS = {"TraitKind": "Generated.traitKindMembers", "ComparisonMode": "Generated.comparisonModeMembers"}
@@ -43,7 +48,9 @@ class Unsupported(ValueError):
 class Tr:
     def __init__(self, fn, legacy):
         a = fn.args
-        if a.kwonlyargs or a.defaults or a.kw_defaults or a.posonlyargs:
+        if any(not (isinstance(d, ast.Constant) and d.value is None) for d in a.defaults):
+            raise Unsupported("%s: default value other than None" % fn.name)
+        if a.kwonlyargs or a.kw_defaults or a.posonlyargs:
             raise Unsupported("%s: parameter list" % fn.name)
         self.slots = {}
         for p in a.args:
@@ -77,6 +84,18 @@ class Tr:
             if e.id in GLOBS:
                 return "(.glob .%s)" % GLOBS[e.id]
             raise Unsupported("name %s" % e.id)
+        if (isinstance(e, ast.Attribute) and e.attr == "co_argcount" and isinstance(e.value, ast.Attribute)
+                and e.value.attr == "__code__"):
+            return self.mk("argcount", [self.expr(e.value.value)])
+        if (isinstance(e, ast.Attribute) and e.attr in ("_notify_method_listener", "_notify_function_listener")
+                and isinstance(e.value, ast.Call) and isinstance(e.value.func, ast.Name) and e.value.func.id == "type"
+                and len(e.value.args) == 1 and isinstance(e.value.args[0], ast.Name) and e.value.args[0].id == "self"):
+            return "(.listenerRef %s)" % ("true" if e.attr == "_notify_method_listener" else "false")
+        if (isinstance(e, ast.Subscript) and isinstance(e.value, ast.Attribute) and e.value.attr == "argument_transforms"
+                and isinstance(e.value.value, ast.Name) and e.value.value.id == "self"):
+            return "(.xformAt %s)" % self.expr(e.slice)
+        if isinstance(e, ast.BinOp) and isinstance(e.op, ast.Sub):
+            return "(.sub %s %s)" % (self.expr(e.left), self.expr(e.right))
         if isinstance(e, ast.Attribute):
             # Enum.member  /  Enum.member.name
             v = e.value
@@ -90,7 +109,7 @@ class Tr:
         if isinstance(e, ast.Compare):
             if len(e.ops) != 1:
                 raise Unsupported("chained comparison")
-            op = {ast.Is: "isE", ast.IsNot: "isNot", ast.Eq: "eq", ast.NotEq: "ne"}.get(type(e.ops[0]))
+            op = {ast.Is: "isE", ast.IsNot: "isNot", ast.Eq: "eq", ast.NotEq: "ne", ast.Gt: "gt"}.get(type(e.ops[0]))
             if op is None:
                 raise Unsupported("comparison %s" % type(e.ops[0]).__name__)
             return "(.%s %s %s)" % (op, self.expr(e.left), self.expr(e.comparators[0]))
@@ -161,6 +180,8 @@ class Tr:
                     return self.mk("weak_deref", [self.expr(v)])
                 if f.attr == "dispatcher":
                     return self.mk("user_handler", self.args(c))
+            if isinstance(v, ast.Name) and v.id == "weakref" and f.attr == "ref" and len(c.args) == 2:
+                return self.mk("weakref_new", self.args(c))
             if (isinstance(v, ast.Attribute) and isinstance(v.value, ast.Name) and v.value.id == "self"
                     and v.attr == "owner" and f.attr == "remove" and len(c.args) == 1
                     and isinstance(c.args[0], ast.Name) and c.args[0].id == "self" and not c.keywords):
@@ -192,7 +213,12 @@ class Tr:
             return "(.ret %s)" % (".noneLit" if s.value is None else self.expr(s.value))
         if isinstance(s, ast.Assign) and all(
                 isinstance(t, ast.Attribute) and isinstance(t.value, ast.Name) and t.value.id == "self" for t in s.targets):
-            return "(.setSelf %d %s)" % (len(s.targets), self.expr(s.value))
+            names = []
+            for t in s.targets:
+                if t.attr not in ATTRS:
+                    raise Unsupported("assignment to self.%s" % t.attr)
+                names.append("." + ATTRS[t.attr])
+            return "(.setSelf [%s] %s)" % (", ".join(names), self.expr(s.value))
         if isinstance(s, ast.Assign):
             if len(s.targets) != 1 or not isinstance(s.targets[0], ast.Name):
                 raise Unsupported("assignment target")
@@ -203,6 +229,12 @@ class Tr:
         if isinstance(s, ast.If):
             return "(.ifS %s\n%s  %s\n%s  %s)" % (self.expr(s.test), ind, self.stmts(s.body, ind + "  "), ind,
                                                self.stmts(s.orelse, ind + "  "))
+        if isinstance(s, ast.Raise):
+            c = s.exc
+            if not (isinstance(c, ast.Call) and isinstance(c.func, ast.Name) and c.func.id == "TraitNotificationError"
+                    and s.cause is None and not any(isinstance(n, ast.Call) for a in c.args for n in ast.walk(a))):
+                raise Unsupported("raise statement")
+            return ".raiseNotification"
         if isinstance(s, ast.Try):
             if s.finalbody or len(s.handlers) != 1:
                 raise Unsupported("try shape")
